@@ -208,3 +208,19 @@ def ufunc_eigh(func, args, icd, ocd, kwargs):
     ow, oq = tuple(ocd[0]), tuple(ocd[1])
     return (SymDA(w, ow, {ow[0]: k}, None, False, A.lazy, tags=("asc",)),
             SymDA(Q, oq, {oq[0]: k, oq[1]: k}, {oq[0]: At._cid.get(core[0])}, A.cplx, A.lazy))
+
+
+def ufunc_colnorm0(func, args, icd, ocd, kwargs):
+    """np.linalg.norm(x, axis=0) through xr.apply_ufunc with core dims [feature, mode] -> [mode]: Euclidean column norms
+    (positive: the caller divides by them - precondition 'no zero column', recorded)"""
+    (A,) = args
+    core = tuple(icd[0])
+    if kwargs.get("axis") != 0 or len(core) != 2 or tuple(ocd[0]) != (core[1],):
+        raise Unsupported("norm variant")
+    At = _two(A, core)
+    g = tm.dg(tm.mul(tm.H(At.term), At.term))
+    c = ctx()
+    c.notes.setdefault("pos_diag", []).append(g.args[0])
+    g = tm.T(g.op, g.args, g.rows, g.cols, g.props | {"diag", "real", "herm", "nonneg", "pos", "inv"})
+    keep = core[1]
+    return SymDA(tm.dpow(g, 0.5), (keep,), {keep: At._ext[keep]}, {keep: At._cid.get(keep)}, False, A.lazy, tags=("nonneg",))
